@@ -36,3 +36,47 @@ def install(spec: Spec):
             spec_term="'completed' if self.event_completed_at else 'started' if self.event_started_at else 'pending'",
             ensures=[('spec', "result == ('completed' if (" + COMPLETED + ") else 'started' if (" + STARTED + ") else 'pending')", ['C03', 'C08', 'C13'])])
     P[('BaseEvent', 'event_status')] = 'BaseEvent.event_status'
+
+    # ------------------------------------------------------------------ lazily created asyncio.Event signals
+    for cls, prop, fld in (('BaseEvent', 'event_completed_signal', '_event_completed_signal'), ('EventResult', 'handler_completed_signal', '_handler_completed_signal')):
+        spec.fn(cls + '.' + prop, file=M, qual=cls + '.' + prop, params={'self': cls}, returns='opt[AsyncEvent]',
+                modifies=[(fld, 'self')],
+                ensures=[('is_the_field', 'result is self.' + fld, ['C03']),
+                         ('created_once', 'implies(old(self.' + fld + ') is not None, result is old(self.' + fld + '))', ['C03', 'C08']),
+                         ('created_in_loop', 'implies(loop_running(), result is not None)', ['C03']),
+                         ('fresh_unset', 'implies(old(self.' + fld + ') is None and result is not None, fresh_object(result) and not result.ev_set)', ['C03'])])
+        P[(cls, prop)] = cls + '.' + prop
+
+    # ------------------------------------------------------------------ EventResult.update (C08 C11 C12)
+    K = 'old(kwargs)'
+    PLAIN = "'result' in " + K + " and not isinstance(" + K + "['result'], BaseException) and 'error' not in " + K + " and 'status' not in " + K
+    NEEDS_VALIDATION = "old(self.result_type) is not None and " + K + "['result'] is not None and not isinstance(" + K + "['result'], BaseEvent)"
+    spec.fn('EventResult.update', file=M, qual='EventResult.update', params={'self': 'EventResult', 'kwargs': 'dict[str,any]'}, varkw='kwargs', returns='EventResult',
+            requires=[('in_loop', 'loop_running()', [])],
+            modifies=[('status', 'self'), ('result', 'self'), ('error', 'self'), ('started_at', 'self'), ('completed_at', 'self'),
+                      ('_handler_completed_signal', 'self'), ('ev_set', '*')],
+            ensures=[
+                ('returns_self', 'result is self', ['C12']),
+                ('typed_conforming', 'implies(' + PLAIN + ' and ' + NEEDS_VALIDATION + ' and validates_ok(old(self.result_type), ' + K + "['result']), "
+                                     "self.status == 'completed' and self.result is validated(old(self.result_type), " + K + "['result']))", ['C12']),
+                ('typed_nonconforming', 'implies(' + PLAIN + ' and ' + NEEDS_VALIDATION + ' and not validates_ok(old(self.result_type), ' + K + "['result']), "
+                                        "self.status == 'error' and self.result is None and self.error is not None)", ['C12']),
+                ('untyped_identity', 'implies(' + PLAIN + ' and not (' + NEEDS_VALIDATION + "), self.status == 'completed' and self.result is " + K + "['result'])", ['C12']),
+                ('returned_exception_converted', "implies('result' in " + K + " and isinstance(" + K + "['result'], BaseException), "
+                                                 "self.status == 'error' and self.error is " + K + "['result'] and self.result is None)", ['C11', 'C12']),
+                ('error_recorded', "implies('error' in " + K + " and isinstance(" + K + "['error'], BaseException) and 'status' not in " + K + ", "
+                                   "self.status == 'error' and self.error is " + K + "['error'])", ['C11', 'C10']),
+                ('status_only', "implies('status' in " + K + " and 'result' not in " + K + " and 'error' not in " + K + ", self.status == " + K + "['status'] "
+                                "and self.result is old(self.result) and self.error is old(self.error))", ['C01']),
+                ('nothing_given_nothing_changes', "implies('status' not in " + K + " and 'result' not in " + K + " and 'error' not in " + K + ", self.status == old(self.status) "
+                                                  "and self.result is old(self.result) and self.error is old(self.error))", ['C08']),
+                ('started_at_set_once', 'implies(old(self.started_at) is not None, self.started_at is old(self.started_at))', ['C01', 'C08']),
+                ('started_when_not_pending', "implies(self.status != 'pending', self.started_at is not None)", ['C01']),
+                ('completed_at_set_once', 'implies(old(self.completed_at) is not None, self.completed_at is old(self.completed_at))', ['C08']),
+                ('terminal_has_completed_at', "implies(self.status == 'completed' or self.status == 'error', self.completed_at is not None)", ['C03', 'C08']),
+                ('status_is_valid', "self.status == 'pending' or self.status == 'started' or self.status == 'completed' or self.status == 'error'", ['C12']),
+            ],
+            raises=[RaisesClause('AssertionError', label='bad_keyword', tags=['C12'],
+                                 when="('error' in kwargs and not isinstance(kwargs['error'], BaseException) and not isinstance(kwargs['error'], str)) or "
+                                      "('status' in kwargs and not (kwargs['status'] == 'pending' or kwargs['status'] == 'started' or kwargs['status'] == 'completed' or kwargs['status'] == 'error'))")])
+    spec.methods[('EventResult', 'update')] = 'EventResult.update'
